@@ -285,8 +285,28 @@ Definition support_legacy_meta (first : N) (m : bmeta) : option bmeta :=
 Inductive wres := WOk | WErr.
 Record wstate := mkW { w_hdr : bool; w_out : str }.
 
-(* writer.go Write, generic in the marshaller (None = proto.Marshal error) *)
+(* writer.go Write, generic in the marshaller (None = proto.Marshal error); a block whose encoding is
+   empty is refused (fix C16-writer-empty-encoding: the reader takes a zero-length message for a damaged
+   file and would lose the blocks after it) *)
 Definition writer_write (penc : blk -> option str) (st : wstate) (b : blk) : wstate * wres :=
+  let st1 :=
+    if w_hdr st then Some st
+    else match write_header (url_of b) with
+         | Some h => Some (mkW true (w_out st ++ h))
+         | None => None
+         end in
+  match st1 with
+  | None => (st, WErr)
+  | Some st1 =>
+      match penc b with
+      | None => (st1, WErr)
+      | Some [] => (st1, WErr)
+      | Some m => (mkW (w_hdr st1) (w_out st1 ++ frame m), WOk)
+      end
+  end.
+
+(* the writer as shipped: an empty encoding is written as the frame 00 00 00 00 *)
+Definition writer_write_unfixed (penc : blk -> option str) (st : wstate) (b : blk) : wstate * wres :=
   let st1 :=
     if w_hdr st then Some st
     else match write_header (url_of b) with
